@@ -50,6 +50,10 @@ pub struct FaultSpec {
     /// the document must be searchable ("a commit that returns Ok is complete")
     #[serde(default)]
     pub reuse: bool,
+    /// after a failed commit, merge all searchable segments with the same writer before recovering (a later
+    /// metadata write must not publish the failed transaction)
+    #[serde(default)]
+    pub merge_after_failure: bool,
 }
 #[derive(Clone, Debug, Serialize, Deserialize)]
 pub struct FaultCase {
@@ -106,8 +110,9 @@ impl Sub for Faults {
             prop_oneof![8 => Just(0u8), 1 => Just(1u8), 1 => Just(2u8), 1 => Just(3u8), 1 => Just(4u8)],
             any::<bool>(),
             prop::bool::weighted(0.35),
+            prop::bool::weighted(0.25),
         )
-            .prop_map(|(kind, pos, permanent, thread, rollback, reuse)| FaultSpec { kind, pos, permanent, thread, rollback, reuse });
+            .prop_map(|(kind, pos, permanent, thread, rollback, reuse, merge_after_failure)| FaultSpec { kind, pos, permanent, thread, rollback, reuse: reuse && !merge_after_failure, merge_after_failure });
         let nfaults = tier.pick(24usize, 40);
         (cfg, prop::collection::vec(op_strategy(false), 4..30), prop::collection::vec(fault, nfaults..nfaults + 1))
             .prop_map(|(cfg, ops, faults)| FaultCase { cfg, ops, faults })
@@ -191,6 +196,11 @@ fn run_child(path: &PathBuf, c: &FaultCase, cx: &Ctx) -> CaseResult {
                     account(cx, &v, &c.faults[i], mix(case_fp, fp(&c.faults[i])));
                     if let Some(f) = v.get("failure").filter(|f| !f.is_null()) {
                         let sig = f.get("sig").and_then(|s| s.as_str()).unwrap_or("child_failure").to_string();
+                        if cx.known_open(&sig) {
+                            // schedule-dependent known finding: count it and go on with the next fault of the case
+                            cx.count(&format!("known_finding_hit:{sig}"), 1);
+                            continue;
+                        }
                         let detail = f.get("detail").and_then(|s| s.as_str()).unwrap_or("").to_string();
                         result = Err(Failure::new(sig, format!("fault #{i} {:?}: {detail}", c.faults[i])));
                         break;
@@ -280,6 +290,9 @@ fn account(cx: &Ctx, v: &Value, f: &FaultSpec, fingerprint: u64) {
     if v.get("commit_ok_after_fault").and_then(|b| b.as_bool()).unwrap_or(false) {
         cx.label("commit_ok_after_fault");
     }
+    if v.get("merged_after_failure").and_then(|b| b.as_bool()).unwrap_or(false) {
+        cx.label("merge_after_failed_commit");
+    }
     if let Some(r) = v.get("recovered_by").and_then(|r| r.as_str()) {
         cx.label(&format!("recover:{r}"));
     }
@@ -329,11 +342,11 @@ pub fn child_main(args: &[String]) -> i32 {
         let rule0 = rule_of(f, usize::MAX);
         let n = dry.log_kinds.iter().filter(|(k, t, p)| rule_matches(&rule0, *k, t, p)).count();
         let nth = idx(f.pos, n.max(1));
-        let res = run_history(&case, Some((rule_of(f, nth), f.rollback, f.reuse)), &cx);
+        let res = run_history(&case, Some((rule_of(f, nth), f.rollback, f.reuse, f.merge_after_failure)), &cx);
         let v = match res {
             Ok(r) => json!({
                 "fired": r.fired, "fired_by": r.fired_by, "api_error": r.api_error, "commit_ok_after_fault": r.commit_ok_after_fault,
-                "recovered_by": r.recovered_by, "fired_after_first_call": r.fired_after_first_call, "failure": Value::Null,
+                "recovered_by": r.recovered_by, "fired_after_first_call": r.fired_after_first_call, "merged_after_failure": r.merged_after_failure, "failure": Value::Null,
             }),
             Err(fl) => json!({"fired": 1, "failure": {"sig": fl.sig, "detail": fl.detail}}),
         };
@@ -364,12 +377,13 @@ struct RunReport {
     commit_ok_after_fault: bool,
     recovered_by: Option<String>,
     reused_commit_ok: bool,
+    merged_after_failure: bool,
     fired_after_first_call: bool,
     log_kinds: Vec<(K, String, String)>,
 }
 
 /// Runs the history on a fresh SimDir, optionally with a fault armed, and applies the oracle.
-fn run_history(case: &FaultCase, fault: Option<(FaultRule, bool, bool)>, cx: &Ctx) -> Result<RunReport, Failure> {
+fn run_history(case: &FaultCase, fault: Option<(FaultRule, bool, bool, bool)>, cx: &Ctx) -> Result<RunReport, Failure> {
     let sd = SimDir::new();
     let mut env = Env::with_sim(case.cfg.clone(), Some(sd.clone()))?;
     env.check_quiescence = false;
@@ -377,7 +391,7 @@ fn run_history(case: &FaultCase, fault: Option<(FaultRule, bool, bool)>, cx: &Ct
     env.skip_dirty_delete_all = true;
     let mut rep = RunReport::default();
     let armed_at = sd.op_count();
-    if let Some((rule, _, _)) = &fault {
+    if let Some((rule, _, _, _)) = &fault {
         sd.set_faults(vec![rule.clone()]);
     }
     let mut failed_api: Option<(usize, String, String)> = None;
@@ -442,6 +456,17 @@ fn run_history(case: &FaultCase, fault: Option<(FaultRule, bool, bool)>, cx: &Ct
     };
     // recovery, faults off
     sd.clear_faults();
+    // optional: an explicit merge with the failed writer (its end_merge writes the metadata again)
+    if fault.as_ref().map(|f| f.3).unwrap_or(false) && failed_api.as_ref().map(|x| x.1 == "commit").unwrap_or(false) {
+        if let Some(w) = env.writer.as_mut() {
+            if let Ok(ids) = env.index.searchable_segment_ids() {
+                if !ids.is_empty() {
+                    let _ = w.merge(&ids).wait();
+                    rep.merged_after_failure = true;
+                }
+            }
+        }
+    }
     // optional: keep using the failed writer first
     let reuse = fault.as_ref().map(|f| f.2).unwrap_or(false);
     let (_s0, f0) = hist_schema();
@@ -520,8 +545,18 @@ fn run_history(case: &FaultCase, fault: Option<(FaultRule, bool, bool)>, cx: &Ct
     let (_schema, f) = hist_schema();
     {
         let reader: tantivy::IndexReader = fresh.reader_builder().reload_policy(tantivy::ReloadPolicy::Manual).try_into().or_fail("after_fault:reader_open_failed")?;
-        verify_searcher(&reader.searcher(), &f, &models[found_j as usize], "after_fault")
-            .map_err(|fl| Failure::new(format!("after_fault:{}", fl.sig), format!("(api error: {failed_api:?}) {}", fl.detail)))?;
+        verify_searcher(&reader.searcher(), &f, &models[found_j as usize], "after_fault").map_err(|fl| {
+            // specific class: the metadata still names the previous commit, but the content is exactly what the
+            // failed commit would have published
+            if failed_commit && found_j == j_ok && verify_searcher(&reader.searcher(), &f, &env.pending, "after_fault").is_ok() {
+                Failure::new(
+                    "after_fault:failed_commit_content_visible_under_previous_commit",
+                    format!("(api error: {failed_api:?}) meta.json still carries payload c{j_ok} but the searchable content is the failed commit's: {}", fl.detail),
+                )
+            } else {
+                Failure::new(format!("after_fault:{}", fl.sig), format!("(api error: {failed_api:?}) {}", fl.detail))
+            }
+        })?;
         match fresh.validate_checksum() {
             Ok(bad) if bad.is_empty() => {}
             other => return Err(Failure::new("after_fault:checksum", format!("{other:?}"))),
